@@ -627,8 +627,8 @@ pub fn run(tier: Tier) -> i32 {
                 nontrivial.fetch_add(1, Relaxed);
             }
             let ok = judge(&ctx, w, &text, cfg, &exp, &got, "expand_words");
-            // every 64th case also end-to-end through the whole shell
-            if ok && (ci * 31 + wi) % tier.pick(64, 64) == 0 {
+            // every 192nd (thorough: 48th) case also end-to-end through the whole shell
+            if ok && (ci * 31 + wi) % tier.pick(192, 48) == 0 {
                 if let Outcome::Fields(ef, _) = &exp {
                     let mut script = String::from("set -f\n");
                     if cfg.nounset {
@@ -715,7 +715,7 @@ pub fn run(tier: Tier) -> i32 {
     let cov = json!({
         "evaluations": evals.load(Relaxed) + shell_runs.load(Relaxed) + read_evals.load(Relaxed),
         "distinct_nontrivial": nontrivial.load(Relaxed),
-        "rule": format!("every word of <= {maxlen} units over {} units (literal, quoting forms ' ' '' \" \" \"\" \\<blank> \\:, $x ${{x}} \"$x\" \"${{x}}\" ${{#x}}, the eight switch forms with inner words a / \"b c\" / $y / b c bare and inside double quotes, the four trims with four patterns, $@ \"$@\" $* \"$*\" $# $1 \"$1\"; length 3 with a reduced outer alphabet) x 8 values of x x 5 positional-parameter lists x 7 IFS values x nounset, expanded by expand_words on a real Env and compared with refexp (fields, error class, and the assigned value for = forms); every 64th case also through the whole shell; plus `read` on every line of length <= 4/5 over {{a, blank, :, backslash}} x 4 IFS x 1-3 variables x -r. Non-trivial = the word contains at least one expansion unit.", us.len()),
+        "rule": format!("every word of <= {maxlen} units over {} units (literal, quoting forms ' ' '' \" \" \"\" \\<blank> \\:, $x ${{x}} \"$x\" \"${{x}}\" ${{#x}}, the eight switch forms with inner words a / \"b c\" / $y / b c bare and inside double quotes, the four trims with four patterns, $@ \"$@\" $* \"$*\" $# $1 \"$1\"; length 3 with a reduced outer alphabet) x 8 values of x x 5 positional-parameter lists x 7 IFS values x nounset, expanded by expand_words on a real Env and compared with refexp (fields, error class, and the assigned value for = forms); every 192nd (thorough: 48th) case also through the whole shell; plus `read` on every line of length <= 4/5 over {{a, blank, :, backslash}} x 4 IFS x 1-3 variables x -r. Non-trivial = the word contains at least one expansion unit.", us.len()),
         "samples": samples.take(),
         "words": words.len(),
         "configurations": cfgs.len(),
